@@ -2,6 +2,7 @@
 import ast
 from ..model import own_nodes, AnalysisError
 from ..paths import cf, factmap, must_call, call_text, returns
+from ..defuse import closed_text
 from ..fsm import Fsm, WORKING, ENDING, rule_decisions_on_table
 from . import shared
 
@@ -192,6 +193,27 @@ def run(P, R):
                 u.loc(seen[k][2]) if k in seen and seen[k][2] is not None else u.loc(),
                 '_check_failure_strategy: %s is %s' % (k, 'decided under %s' % (seen[k][:2],) if k in seen
                                                       else 'never decided'))
+    # precedence of the failure causes: USER > CORE > STRICT > LIST (order of the sequence the first non-None is taken from)
+    import re as _re
+    order = []
+    for n in own_nodes(u.node):
+        seqs = []
+        # the selection of the FIRST non-None failure: next(<generator>, ..) or a loop left by break
+        if isinstance(n, ast.Call) and call_text(n) == 'next' and n.args and isinstance(n.args[0], ast.GeneratorExp) \
+                and len(n.args[0].generators) == 1:
+            seqs.append(n.args[0].generators[0].iter)
+        elif isinstance(n, ast.For) and any(isinstance(x, ast.Break) for x in ast.walk(n)):
+            seqs.append(n.iter)
+        for it in seqs:
+            toks = [m.group(1) or m.group(2) for m in _re.finditer(
+                r'_check_(user|core|strict|list)_failure|SynchronizationOptions\.(USER|CORE|STRICT|LIST)',
+                closed_text(u, it))]
+            toks = [t.upper() for t in toks]
+            if len(set(toks)) == 4:
+                order = [t for i, t in enumerate(toks) if t not in toks[:i]]
+    R.check(r6, order == ['USER', 'CORE', 'STRICT', 'LIST'], 'failure causes are considered in the order USER > CORE > '
+            'STRICT > LIST', 'failure-strategy|precedence', u.loc(), '_check_failure_strategy takes the first non-None '
+            'failure in the order %s (documented: USER > CORE > STRICT > LIST)' % (order or 'not recognised'))
     extra = sorted(str(k) for k in seen if k not in want and k is not None)
     R.check(r6, not extra, 'no other state decided by the failure strategy', 'failure-strategy|extra', u.loc(),
             '_check_failure_strategy also decides %s' % extra)
